@@ -35,6 +35,8 @@ def error_class(name):
     import pypyr.errors
     if name == 'vfail.CustomError':
         return vfail.CustomError
+    if name == 'vfail.InnerError':
+        return vfail.Outer.InnerError
     if name.startswith('pypyr.errors.'):
         return getattr(pypyr.errors, name.split('.')[-1])
     return getattr(builtins, name)
